@@ -254,6 +254,9 @@ impl<B> Flow<B, SendRequest> {
     pub fn write(&mut self, output: &mut [u8]) -> Result<usize, Error> {
         match &mut self.inner.call {
             CallHolder::WithoutBody(v) => v.write(output),
+            // Once the request is written, an empty body write would be
+            // the signal to end the body, which belongs to the SendBody state.
+            CallHolder::WithBody(v) if v.is_body() => Ok(0),
             CallHolder::WithBody(v) => v.write(&[], output).map(|r| r.1),
             _ => unreachable!(),
         }
